@@ -162,6 +162,11 @@ func VerifC08MapIndexKinds() {
 	}
 	out, err := vRender("[{{ m[i] }}]{% if m contains i %}c{% endif %}", Bindings{"m": mv, "i": idx})
 	nd.Assert(err == nil && out == "[]", "non-string-index-reads-nothing")
+	// a.size is the entry count of a map that has no such key, whatever its key type
+	osz, esz := vRender("{{ mi.size }}|{{ mf.size }}|{{ mb.size }}|{{ ma.size }}|{{ ms.size }}|{{ me.size }}", Bindings{
+		"mi": map[int]string{1: "a", 2: "b"}, "mf": map[float64]int{1.5: 1}, "mb": map[bool]int{true: 1, false: 0},
+		"ma": map[any]any{1: 1, "k": 2, true: 3}, "ms": map[string]int{"a": 1}, "me": map[int64]bool{}})
+	nd.Assert(esz == nil && osz == "2|1|2|3|1|0", "size-of-maps-of-every-key-type")
 	nd.Reach("C08.mapindexkinds")
 }
 
